@@ -7,6 +7,7 @@ import (
 	"net"
 	"net/http"
 	"os"
+	"sort"
 	"strings"
 	"sync/atomic"
 	"time"
@@ -717,4 +718,78 @@ func init() {
 	register(&Scenario{Name: "websocket-mapping", Prop: "C15", Engine: "R", Weight: 1, Run: c15WS})
 	register(&Scenario{Name: "wire-messages", Prop: "C15", Weight: 9, Horizon: time.Hour, Run: c15Wire})
 	register(&Scenario{Name: "handshake-deviation-grid", Prop: "C15", Horizon: time.Hour, Weight: 9, Run: c15Handshake})
+}
+
+// c15WSMany: several conforming WebSocket clients complete their upgrade
+// while the listener's accept loop is away (a slow Attached callback): each
+// of them offered the right sub-protocol, got it selected, and sends one
+// binary frame - every one of those messages is delivered.
+func c15WSMany(w *W) {
+	kind := []string{"pull", "bus", "sub", "xrep"}[w.Choose(simrt.SShape, 4)]
+	nc := 2 + w.Choose(simrt.SShape, 3)
+	w.SetShape("kind", kind)
+	w.SetShape("clients", nc)
+	s := w.Sock(kind)
+	defer s.Close()
+	_ = s.SetOption(mangos.OptionRecvDeadline, 20*time.Second)
+	if kind == "sub" {
+		mustSet(w, s, mangos.OptionSubscribe, "")
+	}
+	var first atomic.Bool
+	s.SetPipeEventHook(func(ev mangos.PipeEvent, p mangos.Pipe) {
+		if ev == mangos.PipeEventAttached && first.CompareAndSwap(false, true) {
+			time.Sleep(300 * time.Millisecond) // the accept loop is away for a while
+		}
+	})
+	info := s.Info()
+	l, err := s.NewListener("ws://"+loopIP+":0/sp", nil)
+	if err != nil || l.Listen() != nil {
+		w.Failf("HARNESS/listen", "ws listen: %v", err)
+		return
+	}
+	url := l.Address()
+	var conns []*websocket.Conn
+	defer func() {
+		for _, c := range conns {
+			c.Close()
+		}
+	}()
+	want := map[string]bool{}
+	for i := 0; i < nc; i++ {
+		d := &websocket.Dialer{Subprotocols: []string{info.SelfName + ".sp.nanomsg.org"}, HandshakeTimeout: 30 * time.Second}
+		c, _, err := d.Dial(url, nil)
+		if err != nil {
+			w.Failf("C15/ws-conforming-client-refused", "%s listener refused client %d offering %s.sp.nanomsg.org: %v", kind, i, info.SelfName, err)
+			return
+		}
+		conns = append(conns, c)
+		body := fmt.Sprintf("client-%d", i)
+		want[body] = true
+		if err := c.WriteMessage(websocket.BinaryMessage, inbound(kind, uint32(i+1), body)); err != nil {
+			w.Failf("HARNESS/ws-write", "%v", err)
+			return
+		}
+		if i == 0 {
+			time.Sleep(30 * time.Millisecond) // let the first attach begin (and its callback start sleeping)
+		}
+	}
+	for len(want) > 0 {
+		m, err := s.Recv()
+		if err != nil {
+			var missing []string
+			for b := range want {
+				missing = append(missing, b)
+			}
+			sort.Strings(missing)
+			w.Failf("C15/conforming-message-not-delivered:"+kind, "%s over ws: %d conforming clients connected while the accept loop was busy, each sent one binary frame; never delivered: %v (%v)", kind, nc, missing, err)
+			return
+		}
+		delete(want, string(m))
+		w.Delivery++
+	}
+	w.Probe("ws-clients-while-accept-loop-busy")
+}
+
+func init() {
+	register(&Scenario{Name: "websocket-many-clients", Prop: "C15", Engine: "R", Weight: 1, Run: c15WSMany})
 }
